@@ -35,8 +35,9 @@ def blade_window(ctx, fi, nd):
             continue
         seen.add(id(ff))
         ok = ff.count is not None and ip.eq(ff.arr.win_lo, Num(Ratio(8) * c * k)) and ip.eq(ff.count, Num(c))
-        ctx.check(ok, f"{P}.WINDOW", site, "window = component fidx of the box: [8*C*fidx, +8*C)",
-                  f"window starts {ff.arr.win_lo.text()[:80]} with {ff.count.text()[:60] if ff.count else None} values; "
+        ctx.decide(ok, ff.count is None or not fabio.undecidable(ff.count, ff.arr.win_lo), f"{P}.WINDOW", site,
+                   "window = component fidx of the box: [8*C*fidx, +8*C)",
+                   f"window starts {ff.arr.win_lo.text()[:80]} with {ff.count.text()[:60] if ff.count else None} values; "
                   f"component fidx of a box of C cells is [8*C*fidx, +8*C)", where=loc(fi, ff.node))
     for e in res.events("reshape"):
         if id(e) in seen:
